@@ -25,6 +25,7 @@ CONSTANTS
   CreateFaults = TRUE
   ReadFaults = FALSE
   TTLRollback = TRUE
+  UpdFields = {"inactive", "expired"}
   LegStatus = {"active"}
   OnlyList = {}
   Emit = FALSE
